@@ -2223,8 +2223,9 @@ def allclose(a, b, atol: float = 1e-8):
     -----------
     bool indicating if all elements are within `atol`.
     """
-    #
-    return float(np.ptp(a - b)) < atol
+    # the largest absolute difference: `np.ptp` of the difference
+    # is zero whenever every element differs by the same amount
+    return float(np.abs(np.subtract(a, b)).max()) < atol
 
 
 class FunctionRegistry(Mapping):
